@@ -34,9 +34,10 @@ def _case(chk, case):
     pe = PE(src, assume=em.assume_generic_moment)
     em.install_cache_atoms(pe)
     em.install_special_function_atoms(pe)
-    (n, m), nf = case
+    (n, m), nf = case[0], case[1]
+    fh = case[2] if len(case) > 2 else True     # the family of N3LO parametrisations (use_fhmruvv); the older one also serves nf = 6
     N = dag.sym("N")
-    inst = f"order=({n},{m}),nf={nf}"
+    inst = f"order=({n},{m}),nf={nf}" + ("" if fh else ",use_fhmruvv=False")
     fs = src.func(f"{US}.gamma_singlet_qed")
     fv = src.func(f"{US}.gamma_valence_qed")
     fn_ = src.func(f"{US}.gamma_ns_qed")
@@ -50,7 +51,7 @@ def _case(chk, case):
         except PERaise as e:
             return e.etype
 
-    r_qed, r_qcd = refusal(fs.qname, [(n, m), N, nf, VAR, True]), refusal(f"{US}.gamma_singlet", [(n, 0), N, nf, VAR, True])
+    r_qed, r_qcd = refusal(fs.qname, [(n, m), N, nf, VAR, fh]), refusal(f"{US}.gamma_singlet", [(n, 0), N, nf, VAR, fh])
     if r_qed or r_qcd:
         chk.decide(r_qed == r_qcd == "NotImplementedError", "qed-and-qcd-refuse-alike", fs.qname,
                    f"{inst}: singlet sector: QED grid {'raises ' + r_qed if r_qed else 'is computed'} but the QCD one "
@@ -61,12 +62,12 @@ def _case(chk, case):
         if n < 1:
             return
         inst = inst + f" (singlet refused; compared through a_s^{n})"
-    S = pe.call(fs.qname, [(n, m), N, nf, VAR, True])
-    V = pe.call(fv.qname, [(n, m), N, nf, VAR, True])
-    Q = pe.call(f"{US}.gamma_singlet", [(n, 0), N, nf, VAR, True])
-    nsp = pe.call(f"{US}.gamma_ns", [(n, 0), 10101, N, nf, VAR, True])
-    nsm = pe.call(f"{US}.gamma_ns", [(n, 0), 10201, N, nf, VAR, True])
-    nsv = pe.call(f"{US}.gamma_ns", [(n, 0), 10200, N, nf, VAR, True])
+    S = pe.call(fs.qname, [(n, m), N, nf, VAR, fh])
+    V = pe.call(fv.qname, [(n, m), N, nf, VAR, fh])
+    Q = pe.call(f"{US}.gamma_singlet", [(n, 0), N, nf, VAR, fh])
+    nsp = pe.call(f"{US}.gamma_ns", [(n, 0), 10101, N, nf, VAR, fh])
+    nsm = pe.call(f"{US}.gamma_ns", [(n, 0), 10201, N, nf, VAR, fh])
+    nsv = pe.call(f"{US}.gamma_ns", [(n, 0), 10200, N, nf, VAR, fh])
     chk.need(isinstance(S, Arr) and S.shape == (n + 1, m + 1, 4, 4), f"gamma_singlet_qed shape changed ({inst})")
     diffs, names = [], []
     for i in range(1, n + 1):
@@ -96,7 +97,7 @@ def _case(chk, case):
     diffs, names = [], []
     grids = {}
     for mode in (10102, 10103, 10202, 10203):
-        g = pe.call(fn_.qname, [(n, m), mode, N, nf, VAR, True])
+        g = pe.call(fn_.qname, [(n, m), mode, N, nf, VAR, fh])
         grids[mode] = g
         ref = nsp if mode in (10102, 10103) else nsm
         for i in range(1, n + 1):
@@ -122,6 +123,7 @@ def run(chk):
     orders = [(n, m) for n in (1, 2, 3, 4) for m in (1, 2)] if chk.tier == "thorough" else [(1, 1), (2, 1), (3, 2), (4, 2)]
     nfs = (3, 4, 5, 6)
     cases = [(o, nf) for o in orders for nf in nfs]
+    cases += [(o, nf, False) for o in orders if o[0] == 4 for nf in nfs]      # N3LO with the older parametrisations (the only ones for nf = 6)
     pmap(chk, _case, cases, jobs=8)
     # choose_* are total over the four modes and refuse anything else
     pe = PE(src)
